@@ -1,5 +1,5 @@
-\* race hunt (expected to FAIL NoActorBlock): more responses for an ended block fetcher than its channel buffers,
-\* queued ahead of its SyncStop.  checks/c17.py replays the counterexample on the real syncer.
+\* schedule finder (the trap invariant is EXPECTED to be violated; the counterexample is the schedule): more responses for an ended block fetcher than its channel buffers, queued ahead of its SyncStop.
+\* checks/c17.py replays it on the real syncer: the actor must not block, the session must end, a new one succeed.
 SPECIFICATION Spec
 CONSTANTS
   MaxL = 1
@@ -18,8 +18,7 @@ CONSTANTS
   MaxStops = 0
   MaxExpire = 2
   IgnoredStarts = FALSE
-  RaceFinder = FALSE
-  RaceBuffer = TRUE
+  PreRepair = FALSE
 VIEW view
-INVARIANTS NoActorBlock
+INVARIANTS NoActorBlock TrapBufferOverflow
 CHECK_DEADLOCK FALSE
